@@ -54,6 +54,68 @@ def _is_none(n):
     return isinstance(n, ast.Constant) and n.value is None
 
 
+# ---- the kind of object a numeric argument is (sixth pass)
+# A guard on a size can test more than the value: `isinstance(size, int)`, `type(size) is int`.  The value part goes
+# into the Prop (`sizeTest`), the type part into the list of *kinds of argument object* that pass it (`sizeKinds`); a
+# guard without a type test passes every kind.  Kind classes: the built-in int, bool, an int subclass, a numpy integer
+# scalar (any width), a float (numpy.float64 included: it is a float subclass), another real number (Fraction, Decimal).
+ALL_SIZE_KINDS = ["int", "bool", "int-subclass", "numpy-integer", "float", "other-real"]
+_ISINSTANCE_KINDS = {
+    "int": ["int", "bool", "int-subclass"],
+    "bool": ["bool"],
+    "float": ["float"],
+    "numbers.Integral": ["int", "bool", "int-subclass", "numpy-integer"],
+    "Integral": ["int", "bool", "int-subclass", "numpy-integer"],
+    "numbers.Number": list(ALL_SIZE_KINDS),
+    "Number": list(ALL_SIZE_KINDS),
+    "numpy.integer": ["numpy-integer"],
+    "np.integer": ["numpy-integer"],
+    "numpy.signedinteger": None, "np.signedinteger": None,  # only some widths: not expressible, degrade
+}
+_EXACT_TYPE_KINDS = {"int": ["int"], "bool": ["bool"], "float": ["float"]}
+
+
+def type_test_kinds(test, var):
+    """`isinstance(<var>, T)` / `isinstance(<var>, (T, U))` / `type(<var>) is T` / `type(<var>) == T` / an `or` of such
+    -> the kind classes that pass; None when `test` is not a type test on `var`; KeyError for a type test that is not
+    understood (the item then degrades to its pinned value)."""
+    if isinstance(test, ast.Call) and isinstance(test.func, ast.Name) and test.func.id == "isinstance" and len(test.args) == 2 \
+            and not test.keywords and ast.unparse(test.args[0]) == var:
+        ts = test.args[1].elts if isinstance(test.args[1], ast.Tuple) else [test.args[1]]
+        kinds = set()
+        for t in ts:
+            ks = _ISINSTANCE_KINDS.get(ast.unparse(t))
+            if ks is None:
+                raise KeyError("isinstance(%s, %s)" % (var, ast.unparse(t)))
+            kinds.update(ks)
+        return [k for k in ALL_SIZE_KINDS if k in kinds]
+    if isinstance(test, ast.Compare) and len(test.ops) == 1 and isinstance(test.ops[0], (ast.Is, ast.Eq)) \
+            and ast.unparse(test.left) == "type(%s)" % var:
+        ks = _EXACT_TYPE_KINDS.get(ast.unparse(test.comparators[0]))
+        if ks is None:
+            raise KeyError("type(%s) is %s" % (var, ast.unparse(test.comparators[0])))
+        return list(ks)
+    if isinstance(test, ast.BoolOp) and isinstance(test.op, ast.Or):
+        parts = [type_test_kinds(v, var) for v in test.values]
+        if all(p is not None for p in parts):
+            return [k for k in ALL_SIZE_KINDS if any(k in p for p in parts)]
+        if any(p is not None for p in parts):
+            raise KeyError("type test mixed with a value test in an `or`: " + ast.unparse(test))
+    return None
+
+
+def guard_kinds(test, var):
+    """The kind classes of argument object that pass the type test(s) of a guard (a conjunction): all of them when the
+    guard has none."""
+    conj = test.values if isinstance(test, ast.BoolOp) and isinstance(test.op, ast.And) else [test]
+    kinds = list(ALL_SIZE_KINDS)
+    for c in conj:
+        ks = type_test_kinds(c, var)
+        if ks is not None:
+            kinds = [k for k in kinds if k in ks]
+    return kinds
+
+
 def truthiness(test, var, env):
     """A Python `if <test>:` on an optional integer `var` that is known not to be None -> Lean Prop.
 
@@ -62,6 +124,8 @@ def truthiness(test, var, env):
     """
     if isinstance(test, ast.Name) and test.id == var:
         return "(%s ≠ 0)" % env[var]
+    if type_test_kinds(test, var) is not None:
+        return "True"  # the type part of the guard: `guard_kinds`
     if isinstance(test, ast.Compare) and len(test.ops) == 1 and isinstance(test.ops[0], ast.IsNot) \
             and ast.unparse(test.left) == var and _is_none(test.comparators[0]):
         return "True"
@@ -290,6 +354,9 @@ def generate(o):
     def size_test():
         return truthiness(fa_if().test, "size", env_fa)
 
+    def size_kinds():
+        return guard_kinds(fa_if().test, "size")
+
     def limited_batch():
         st = fa_if()
         for s in st.body:
@@ -319,6 +386,9 @@ def generate(o):
 
     def limit_test():
         return truthiness(ta_if().test, "size", env_ta)
+
+    def limit_kinds():
+        return guard_kinds(ta_if().test, "size")
 
     def head_arg():
         st = ta_if()
@@ -521,6 +591,8 @@ def generate(o):
     v["stop"] = item("arrowexpr.next.stop_test", stop_test, PINNED["next.stop_test"])
     v["bump"] = item("arrowexpr.next.bump", bump, PINNED["next.bump"])
     v["size_test"] = item("arrowexpr.from_arrow.size_test", size_test, PINNED["from_arrow.size_test"])
+    v["size_kinds"] = item("arrowexpr.from_arrow.size_kinds", size_kinds, list(ALL_SIZE_KINDS))
+    v["limit_kinds"] = item("arrowexpr.to_arrow.limit_kinds", limit_kinds, list(ALL_SIZE_KINDS))
     v["batch"] = item("arrowexpr.from_arrow.limited_batch", limited_batch, PINNED["from_arrow.limited_batch"])
     v["inf"] = item("arrowexpr.from_arrow.unlimited_is_inf", unlimited_is_inf, True)
     v["limit_test"] = item("arrowexpr.to_arrow.limit_test", limit_test, PINNED["to_arrow.limit_test"])
@@ -589,5 +661,13 @@ def generate(o):
     text += ("/-- something on the conversion path (`DataFrame.arrow` / `.pandas`, `to_arrow` / `to_pandas`) assigns an attribute of the\n"
              "frame it converts (a kept table, a flag ...): a conversion is then not a function of the rows the frame holds -/\n")
     text += "def conversionWritesFrame : Bool := %s\n" % b(writes_frame)
+    def strs(xs):
+        return "[" + ", ".join('"%s"' % x for x in xs) + "]"
+    text += ("/-- converters.py `from_arrow`: the kinds of argument object (built-in int, bool, int subclass, numpy integer scalar, float,\n"
+             "another real number) that pass the *type* test of the size guard (`isinstance(size, …)`, `type(size) is …`); every kind when\n"
+             "the guard has none (`if size:`).  A size of a kind not listed here takes the other branch: no limit. -/\n")
+    text += "def sizeKinds : List String := %s\n" % strs(v["size_kinds"])
+    text += "/-- converters.py `to_arrow`: the same for the guard under which the frame is cut with `head` -/\n"
+    text += "def toArrowSizeKinds : List String := %s\n" % strs(v["limit_kinds"])
     text += "end Gen.ArrowExpr\n"
     o.files["ArrowExpr.lean"] = text
